@@ -279,6 +279,22 @@ class SymList:
     def __init__(self, count, at):
         self.count, self.at = count, at
 
+    def getattr(self, ip, name, lineno):
+        if name == "append":
+            return _SymListAppend(self)
+        raise Unsupported("list method %s on a list of symbolic length" % name)
+
+
+class _SymListAppend:
+    def __init__(self, lst):
+        self.lst = lst
+
+    def sym_call(self, ip, args, kwargs, lineno):
+        lst, v = self.lst, args[0]
+        old, n0 = lst.at, lst.count
+        lst.at = lambda k, old=old, n0=n0, v=v: v if conc(I(k) == I(n0)) is True else (Ite(I(k) == I(n0), v, old(k)) if is_sym(v) or isinstance(v, int) else old(k))
+        lst.count = conc(I(n0) + 1)
+
 
 class Opaque:
     """A value the engine carries but does not interpret (strings, exceptions, messages)."""
